@@ -106,6 +106,29 @@ theorem valueOf_first_duplicate_wins (s : Solution (Ext K)) (name : String) :
   unfold Solution.valueOf
   exact buildAssignmentMap_get s.assignment name
 
+/-- `make_constraints_map_from_assignment`: the reported map contains no internal (`__`-prefixed) row, and for every
+other name it holds the activity `Σ cᵢ·vᵢ` of the LAST row carrying that name (unnamed rows collapse on the empty key
+the same way) — with distinct names: of that row. -/
+theorem constraintsMap_last_duplicate_wins (lm : LinModel (Ext K)) (values : List (Ext K))
+    (cm : List (String × Ext K)) (h : constraintsMap lm values = some cm) :
+    (∀ p ∈ cm, p.1.startsWith "__" = false) ∧
+    ∀ name : String, name.startsWith "__" = false →
+      imGet cm name = lastVal (lm.rows.map fun r => (r.name, sumProducts r.coeffs values)) name := by
+  unfold constraintsMap calcConstraints at h
+  split at h
+  · simp only [Option.map_some, Option.some.injEq] at h
+    subst h
+    constructor
+    · intro p hp
+      obtain ⟨q, hq, he⟩ := imCollect_key_mem _ p hp
+      have := (List.mem_filter.mp hq).2
+      rw [← he]
+      simpa using this
+    · intro name hn
+      rw [imCollect_get]
+      exact lastVal_filter (fun n => !(n.startsWith "__")) _ name (by simp [hn])
+  · simp at h
+
 /-- the MILP wrapper reports one assignment per variable, in the model's order, when microlp returns one value per
 column. -/
 theorem wrapMilp_one_value_per_variable (lm : LinModel (Ext K)) (st : MlpStatus) (obj : Ext K) (vals : List (Ext K))
@@ -171,6 +194,13 @@ user variable called `$sl_x` is dropped by the name-prefix test. -/
 theorem asLpAssignment_prefix_collision_counterexample (v : Ext K) :
     asLpAssignment ["$sl_x"] [v] = [] := by
   simp [asLpAssignment, zipNames]
+
+/-- what else the `LpSolution` of the tableau simplex carries (`as_lp_solution` → `LpSolution::new`): status `Optimal`, no
+row activities, no shadow prices — so `slow_simplex_solution_exact_partial` below speaks about the whole returned object. -/
+theorem asLpSolution_status_rows (names : List String) (values : List (Ext K)) (value : Ext K) :
+    (asLpSolution names values value).status = .optimal ∧ (asLpSolution names values value).constraints = [] ∧
+    (asLpSolution names values value).shadow = [] ∧ (asLpSolution names values value).value = value := by
+  simp [asLpSolution, lpSolutionNew]
 
 /-! ### non-vacuity -/
 
